@@ -242,7 +242,8 @@ Proof.
       destruct (group_selects cur f i) as [[|]|] eqn:Es; try exact Hv;
         (destruct x; try exact Hv; try discriminate;
          try (apply Hd; [reflexivity | congruence]);
-         match goal with |- vok (if ?b then _ else _) = true => destruct b end; try exact Hv; try reflexivity).
+         match goal with |- vok (if ?b then _ else _) = true => destruct b end; try exact Hv; try reflexivity;
+         rewrite vok_touch; exact Hv).
     - cbn [go nth]. fold go. apply (IH (S i) fs0 k f Hk Hv).
       replace (S i + k)%nat with (i + S k)%nat by lia. exact Hd. }
   intros g i E. unfold which_one_of in E. cbn [ocur oraw] in *.
